@@ -80,18 +80,26 @@ def oracle(chk, world, r, case):
             chk.failure("multi-output parser %d (goes on after faulty elements): the elements that can be built give %s, broker holds %s "
                         "(element outcomes %s)" % (cid, want, got, [(sps[x % len(sps)] if sps else "v") for x in src]), case)
     # (2) accounting
-    raised = dict((id(e), (cid, name)) for cid, name, e in r.raised)
+    raisers = {}          # one exception object may be raised by several components (a provider's cached failure)
+    for cid, name, e in r.raised:
+        raisers.setdefault(id(e), set()).add(cid)
     recorded = {}
     for target, lst in b.exceptions.items():
         t = world.ids.get(target)
+        nth = {}
         for ex in lst:
-            src = b.vlog["src"].get((id(ex), t if t is not None else target))
-            who = raised.get(id(ex), (src, None))[0]
+            nth[id(ex)] = nth.get(id(ex), 0) + 1
+            src = b.vlog["src"].get((id(ex), t if t is not None else target, nth[id(ex)]))
+            whos = raisers.get(id(ex)) or set([src])
+            who = t if t in whos else sorted(whos, key=lambda x: (x is None, x))[0]
             name = W.exc_name(ex)
             recorded.setdefault(id(ex), []).append(t)
-            allowed = set([who]) | set(world.regpoints(who)) if who is not None else set()
+            allowed = set()
+            for w in whos:
+                if w is not None:
+                    allowed |= set([w]) | set(world.regpoints(w))
             if t not in allowed:
-                chk.failure("exception %s raised by %s is recorded against %s (allowed: %s)" % (name, who, t if t is not None else dr.get_name(target), sorted(allowed)), case)
+                chk.failure("exception %s raised by %s is recorded against %s (allowed: %s)" % (name, sorted(whos, key=str), t if t is not None else dr.get_name(target), sorted(allowed)), case)
             try:
                 tb = b.tracebacks.get(ex)
             except TypeError:
@@ -119,6 +127,10 @@ def oracle(chk, world, r, case):
             lonely = kind == "datasource" and not world.regpoints(cid) and name in ("content", "calledProc", "timeout")
             chk.failure("%s raised by %s %d is recorded nowhere" % (name, kind, cid), case,
                         finding=KNOWN_LONELY if lonely else None)
+        elif not (set(recorded[id(e)]) & (set([cid]) | set(world.regpoints(cid)))):
+            # recorded, but only for OTHER components that met the same exception object
+            chk.failure("%s raised by %s %d is recorded against %s only, not against %d or a spec it implements or is built on"
+                        % (name, kind, cid, sorted(x for x in recorded[id(e)] if x is not None), cid), case)
         elif kind == "datasource" and (name in ("content", "calledProc", "timeout") or name.startswith("crash")):
             # a datasource's fault is recorded against EVERY registry point it implements or is built on, as they are now
             # (registrations made after an earlier evaluation included)
@@ -248,6 +260,11 @@ def run(chk):
             seeds = W.gen_seeds(rng, spec, rate=0.06)
             targets = sorted(set(rng.randrange(n) for _ in range(rng.randint(1, 4))))
             ss = rng.random() < 0.5
+            if idx % 4 == 2:
+                # several parsers of one input that all meet the SAME exception object while reading it
+                more = W.add_shared_fault_parsers(rng, spec)
+                targets = sorted(set(targets) | set(more))
+                chk.count("shared-exception-object:%d" % len(more))
         world = W.World(spec, "c03_%d_%d" % (chk.seed, idx))
         graph = world.graph_for(targets)
         lines.extend(world.lines(seeds))
